@@ -36,7 +36,7 @@ Inductive label : Type :=
 | L_FreeHC (x : bool).                       (* check_free_holding_cells (every message-event poll) *)
 
 (** Oracle inputs of a step (see above). *)
-Record oracle : Type := mkOracle { ok_adds : list Z; fee_ok : bool; est : Z (* fee estimator reading *) }.
+Record oracle : Type := mkOracle { ok_adds : list Z; fee_ok : bool; est : Z; est1 : Z (* fee estimator readings of node 0 / node 1 *) }.
 Definition send_ok_of (o : oracle) (amt : Z) : bool := existsb (Z.eqb amt) (ok_adds o).
 
 Definition deliver_msg (o : oracle) (c : chan) (m : msg) : rres (chan * list msg) :=
@@ -171,7 +171,7 @@ Fixpoint replay (k0 k1 : ChannelConstraints) (mult : Z) (s : sys) (steps : list 
       let signed0 := if cleared then [] else map (fun v => 0 :: dump_view (s_n0 s') false v) (commits_of (new_msgs n01 (s_q01 s') d01)) in
       let signed1 := if cleared then [] else map (fun v => 1 :: dump_view (s_n1 s') false v) (commits_of (new_msgs n10 (s_q10 s') d10)) in
       replay k0 k1 mult s' t
-        ((observe s' ++ [reported_limits (s_n0 s') k0 (est o) mult; reported_limits (s_n1 s') k1 (est o) mult]
+        ((observe s' ++ [reported_limits (s_n0 s') k0 (est o) mult; reported_limits (s_n1 s') k1 (est1 o) mult]
           ++ [[-7]] ++ validated ++ [[-8]] ++ signed0 ++ signed1) :: acc)
     end
   end.
